@@ -29,7 +29,7 @@ macro_rules! explore_prop {
                 unreachable!()
             }
             fn enumerate(tier: Tier, emit: &mut dyn FnMut(Root)) {
-                enumerate_roots(tier.pick(4, 6), &$planners, emit);
+                enumerate_roots(tier.pick(5, 6), &$planners, emit);
             }
             fn enumeration_is_exhaustive(_tier: Tier) -> bool {
                 true
@@ -123,7 +123,7 @@ impl Prop for C15Random {
     const RULE: &'static str = "proptest-generated planner cases (RRT, RRT-Connect, RRT*; generated worlds, parameters, seeds) run as setup + N x solve(budget 1) with the real seeded sampler, N in 30..150 (quick) / 50..600 (thorough), ending by success or by budget; the invariant of the scripted part is checked on every intermediate snapshot. Non-trivial = a snapshot with >= 4 nodes containing a node whose parent is not the previous node.";
     const HANG_IS_VIOLATION: bool = true;
     fn random_cases(tier: Tier) -> usize {
-        tier.pick(1_500, 12_000)
+        tier.pick(5_000, 30_000)
     }
     fn gen(ch: &mut Ch, tier: Tier) -> PlanCase {
         gen_stepwise(ch, &TREE_PLANNERS, tier, true)
@@ -143,7 +143,7 @@ impl Prop for C15Chunked {
     const RULE: &'static str = "planner cases run as setup + solve(budget 200-1500) + solve under a real 1-5 ms wall-clock timeout: the structural invariant (indices, single root, acyclic, node validity, root identity, path = parent walk, RRT* cost >= branch length) is checked on the snapshot after each call, whether it ended in success, budget or timeout. Non-trivial = final tree with >= 4 nodes and a non-chain edge.";
     const HANG_IS_VIOLATION: bool = true;
     fn random_cases(tier: Tier) -> usize {
-        tier.pick(2_000, 15_000)
+        tier.pick(6_000, 30_000)
     }
     fn gen(ch: &mut Ch, _tier: Tier) -> PlanCase {
         let prof = Profile {
@@ -227,7 +227,7 @@ impl Prop for C16Random {
     const PART: &'static str = "random-stepwise-runs";
     const RULE: &'static str = "generated planner cases (RRT, RRT-Connect, RRT*) run as setup + N x solve(budget 1) with the real seeded sampler wrapped by a recording space/goal; every iteration's transition is checked by the reference model of the scripted part. Non-trivial = a transition in which the nearest node is not the most recently added one and the sample is farther than the step, or an RRT-Connect iteration in which both trees grew.";
     fn random_cases(tier: Tier) -> usize {
-        tier.pick(1_500, 12_000)
+        tier.pick(5_000, 30_000)
     }
     fn gen(ch: &mut Ch, tier: Tier) -> PlanCase {
         gen_stepwise(ch, &TREE_PLANNERS, tier, false)
@@ -244,7 +244,7 @@ impl Prop for C17Random {
     const PART: &'static str = "random-stepwise-runs";
     const RULE: &'static str = "generated RRT* cases (radius 1-4 x step, free and obstructed worlds) run as setup + N x solve(budget 1); every accepted iteration is checked against (a)-(d). Non-trivial = an iteration in which choose-parent picked a non-nearest parent or at least one node was rewired.";
     fn random_cases(tier: Tier) -> usize {
-        tier.pick(1_200, 10_000)
+        tier.pick(4_000, 25_000)
     }
     fn gen(ch: &mut Ch, tier: Tier) -> PlanCase {
         let mut c = gen_stepwise(ch, &[PlannerTag::RRTStar], tier, true);
@@ -266,7 +266,7 @@ impl Prop for C17VsRrt {
     const PART: &'static str = "rrt-vs-rrtstar";
     const RULE: &'static str = "generated cases solved by RRT and by RRT* with the same seed, parameters, world and iteration budget: both must end the same way; when both return a path the last states are bit-equal and length(RRT*) <= length(RRT) (1+1e-12) + tol. Non-trivial = both return a path and the two paths differ.";
     fn random_cases(tier: Tier) -> usize {
-        tier.pick(5_000, 40_000)
+        tier.pick(10_000, 60_000)
     }
     fn gen(ch: &mut Ch, _tier: Tier) -> PlanCase {
         let prof = Profile {
